@@ -150,6 +150,45 @@ pub fn check_program(prog: &Program, seed: u64, thorough: bool, rep: &mut Report
                 }
             }
         }
+        // compiling again (now with a warm derivative cache) must give an equivalent automaton
+        if rng.chance(1, 6) {
+            match guard(|| s.m.compile(t)) {
+                Ok(a2) => {
+                    rep.inc("second_compile_validated");
+                    if a2.num_states() != auto.num_states() {
+                        s.viol(rep, "language", "language:second-compile-size", format!("compiling {} twice gives {} and then {} states", term_text(t), auto.num_states(), a2.num_states()), k);
+                    } else {
+                        validate(&mut s, rep, t, &a2, k, "second compile", &ws[..ws.len().min(10)], false);
+                    }
+                }
+                Err(msg) => s.viol(rep, "compile-panic", "compile-panic:second", format!("second compile({}) panicked: {}", term_text(t), msg), k),
+            }
+        }
+        // str_next from arbitrary states follows next()
+        if auto.num_states() > 1 {
+            for _ in 0..3 {
+                let st = auto.state(rng.usize(auto.num_states()));
+                let wd = rng.pick(&ws).clone();
+                let mut cur = st;
+                for &c in &wd {
+                    cur = auto.next(cur, c);
+                }
+                let sw = SmtString::from(&wd[..]);
+                rep.inc("str_next_from_inner_states");
+                match guard(|| auto.str_next(st, &sw).id()) {
+                    Ok(id) => {
+                        if id != cur.id() {
+                            s.viol(rep, "accepts", "accepts:str_next", format!("str_next(state {}, {}) = {} but stepping with next() gives {}", st.id(), show_str(&wd), id, cur.id()), k);
+                            break;
+                        }
+                    }
+                    Err(msg) => {
+                        s.viol(rep, "totality", "totality:str_next", format!("str_next panicked: {}", msg), k);
+                        break;
+                    }
+                }
+            }
+        }
         // try_compile with a sufficient bound must give an equivalent automaton
         if rng.chance(1, 3) {
             let bound = count + rng.usize(3) * 7;
